@@ -39,6 +39,17 @@ Theorem C19_set_max_height_below_seen_is_refused :
     set_max_height_allowed N s = (Panic PSetMaxBelowSeen, s).
 Proof. exact set_max_height_below_seen. Qed.
 
+(* from inside a node, fold, bind or cutoff function (status Stabilising) the call is refused with its own diagnostic
+   and changes nothing; from an update handler (status RunningOnUpdateHandlers) it is served like a call from top
+   level, i.e. the two theorems above apply; a closure's or handler's call is that very function *)
+Theorem C19_set_max_height_during_propagation_is_refused :
+  forall N s, st_status s = Stabilising -> set_max_height_allowed N s = (Panic PSetMaxDuringStabilise, s).
+Proof. exact set_max_height_during_propagation. Qed.
+
+Theorem C19_set_max_height_from_a_closure_is_the_same_call :
+  forall fuel arg N, run_effect fuel arg (ESetMaxHeight N) = set_max_height_allowed N.
+Proof. exact effect_set_max_height. Qed.
+
 (* stabilise from inside a node function or a handler panics at once and touches nothing; so does a
    further stabilise call on that state *)
 Theorem C19_nested_stabilise_panics :
@@ -94,3 +105,5 @@ Print Assumptions C19_stabilise_while_stabilising_panics.
 Print Assumptions C19_cycle_is_reported.
 Print Assumptions C19_heights_within_the_limit_in_every_history.
 Print Assumptions C19_every_operation_keeps_heights_within_the_limit.
+Print Assumptions C19_set_max_height_during_propagation_is_refused.
+Print Assumptions C19_set_max_height_from_a_closure_is_the_same_call.
